@@ -62,7 +62,7 @@ var c05PostMutations = []Defect{
 	{Name: "rogue-key"}, {Name: "rogue-key-registered-cert"}, {Name: "rogue-key-no-keyinfo"},
 	{Name: "as-redirect"}, {Name: "add-signature-param", Param: "QUJD"}, {Name: "add-signature-param", Param: "!!"}, {Name: "add-sigalg-param"},
 	{Name: "dup-signature-element"}, {Name: "add-child-after-signing"}, {Name: "remove-keyinfo"}, {Name: "change-relaystate"},
-	{Name: "deflate-polyglot"}, {Name: "deflate-polyglot"},
+	{Name: "deflate-polyglot"}, {Name: "deflate-polyglot"}, {Name: "repeat-in-query"},
 }
 
 var c05RedirectMutations = []Defect{
@@ -458,6 +458,10 @@ func c05Render(c C05Case, now time.Time) c05Rendered {
 		hr, _, err := spsim.Encode(spec.IdP.Route("sso"), xmlb, tr, nil)
 		if err != nil {
 			panic("harness: " + err.Error())
+		}
+		if c.has("repeat-in-query") && c.Alg == "" && len(c.Mut) == 1 {
+			// an unsigned message as a form whose action URL repeats the parameters in its query
+			hr.RawQuery = hr.Body
 		}
 		hr.Host = c.Host
 		out.HR = hr
